@@ -23,6 +23,7 @@ LEVEL_TEXT = {
     "C18": ("fault_enumeration", "Static: generated TUs tabulate noexcept(...) for every documented operation over {nothrow/throwing move ctor, move assign, swap} x N x source capacity relation x allocator traits x standards and compare with independently coded README conditions; iterator/nested-type facts. Run-time: every fault point of every generated (state, operation) is injected; a std::terminate is a violation; operations declared noexcept must reach no potentially-throwing point.", "§4 C18"),
     "C19": ("exploration", "Exhaustive configuration grid (3408 points per ideal size): sizeof/alignof/default_buffer_size of real instantiations compared with the property's own statement (largest count fitting 64 bytes, else 1; N=0 stateless = pointer + 2 size_type; alignment), evaluated independently in Python.", "§4 C19"),
     "C08": ("exploration", "Differential between constant evaluation and run time: rapidcheck-generated operation programs are embedded in generated translation units, `constexpr auto ct = run(prog)` must be accepted by g++ and clang++ (whose evaluators reject UB, out-of-lifetime access and unreleased allocations) and must equal the run-time result (ASan+UBSan) of the same function on the same bytes; rejected programs are bisected and delta-debugged.", "§4 C08"),
+    "C17": ("exploration", "Cross-build differential: one C++11-clean interpreter source is built under 10-12 (compiler, standard, GCH_DISABLE_CONCEPTS) combinations; every build executes the same rapidcheck-generated corpus over 5 configurations and must print identical observation-trace digests (values, sizes, capacities, positions, exceptions, allocate counts), and a configuration must compile under all standards or none.", "§4 C17"),
 }
 
 
@@ -74,6 +75,7 @@ TECHNIQUE = {
     "C13": "differential property testing (trivially copyable twin vs non-trivial type), trace comparison",
     "C14": "stateful property testing with a geometric-growth oracle",
     "C15": "property testing with instrumented single-pass / checked iterators",
+    "C17": "differential testing across language standards / compilers on a generated program corpus (trace digest comparison)",
     "C18": "exhaustive configuration-grid enumeration of noexcept/trait values against independently coded conditions, plus property-based fault injection with a terminate oracle",
     "C19": "exhaustive configuration-grid enumeration with an independent size/alignment oracle",
     "C16": "exhaustive small-domain differential testing against std::vector plus rapidcheck-generated contents, cross-build table comparison",
@@ -87,6 +89,7 @@ ENGINES = [
     {"name": "grid", "path": "vlib/grid.py (generates translation units)", "serves_properties": ["C18", "C19"], "kind_free_text": "generated TUs tabulating compile-time facts over configuration grids, oracle in Python"},
     {"name": "conv", "path": "harness/conv_main.cpp, harness/archetypes.hpp, vlib/conv.py", "serves_properties": ["C13"], "kind_free_text": "converting-input differential against static_cast / std::vector and archetype compile probes"},
     {"name": "cx", "path": "harness/cx_interp.hpp, harness/cx_emit.cpp, vlib/cxeng.py", "serves_properties": ["C08"], "kind_free_text": "constexpr interpreter; generated TUs compiled by g++ and clang++, compile-time vs run-time digests"},
+    {"name": "xstd", "path": "harness/xstd_main.cpp, vlib/xstd.py", "serves_properties": ["C17"], "kind_free_text": "the interpreter built under every standard/compiler; corpus digests compared"},
     {"name": "fault", "path": "harness/hist_main.cpp (fault mode)", "serves_properties": ["C05", "C06"],
      "kind_free_text": "prefix + operation under test, every fault point enumerated"},
 ]
